@@ -150,6 +150,25 @@ func (c *Ctx) calleeEnvV(cc *ssa.CallCommon, g *ssa.Function, env Env, callVal s
 			}
 		}
 	}
+	// a validating step that hands its argument back (`return p.validate(model)` with validate returning the model it
+	// was given): under the caller's name for the result, that argument IS the result (only for rules that ask for it)
+	if callVal != nil && g.Blocks != nil && c.nameHandedOn {
+		base := c.Path(callVal, env)
+		for _, r := range returnsOf(g) {
+			if !maySucceed(r) {
+				continue
+			}
+			for i, res := range r.Results {
+				if p, isP := res.(*ssa.Parameter); isP {
+					if len(r.Results) > 1 {
+						ne[p] = fmt.Sprintf("%s#%d", base, i)
+					} else {
+						ne[p] = base
+					}
+				}
+			}
+		}
+	}
 	return ne
 }
 
@@ -457,6 +476,9 @@ func (c *Ctx) guard(f *ssa.Function, env Env, chk *GCheck, events func(in ssa.In
 		}
 		if s.okVal != nil {
 			okVals[s.okVal] = true
+			for _, d := range decoratedErrs(s.okVal) {
+				okVals[d] = true
+			}
 		}
 	}
 	// steps that cannot fail: what follows them in their own block lies behind them
@@ -759,8 +781,15 @@ func (c *Ctx) guardLoop(f *ssa.Function, env Env, chk *GCheck, depth int) (bool,
 // callTo matches static calls to fn (by object identity) with optional argument path predicates.
 func callTo(name string, fn *ssa.Function, args ...func(string) bool) *GCheck {
 	return &GCheck{Name: name, MatchCall: func(c *Ctx, call *ssa.Call, env Env) bool {
-		if fn == nil || call.Call.StaticCallee() != fn {
+		if fn == nil {
 			return false
+		}
+		g := call.Call.StaticCallee()
+		if g != fn {
+			// the method called through a method expression (`T.M(x, a)`): a thunk with the same argument list
+			if g == nil || !strings.HasPrefix(g.Synthetic, "thunk") || funcValueOf(g) != fn {
+				return false
+			}
 		}
 		return argsMatch(c, &call.Call, env, args)
 	}}
@@ -1322,22 +1351,32 @@ func (c *Ctx) tableLoopEnvsAlt(f *ssa.Function, env Env) []tableEnv {
 					rs = append(rs, ranged{v: ld})
 				}
 			}
-			for _, r := range *sl.Referrers() {
-				phi, isPhi := r.(*ssa.Phi)
-				if !isPhi || len(cd.loads) > 0 {
+			// (a φ that selects this table among several: the local slice, or a load of the package-level one)
+			srcs := []ssa.Value{sl}
+			if len(cd.loads) > 0 {
+				srcs = cd.loads
+			}
+			for _, src := range srcs {
+				if src.Referrers() == nil {
 					continue
 				}
-				for i, e := range phi.Edges {
-					if e != ssa.Value(sl) {
+				for _, r := range *src.Referrers() {
+					phi, isPhi := r.(*ssa.Phi)
+					if !isPhi {
 						continue
 					}
-					cut := map[edge]bool{}
-					for j, p := range phi.Block().Preds {
-						if j != i {
-							cut[edge{from: p, to: phi.Block()}] = true
+					for i, e := range phi.Edges {
+						if e != src {
+							continue
 						}
+						cut := map[edge]bool{}
+						for j, p := range phi.Block().Preds {
+							if j != i {
+								cut[edge{from: p, to: phi.Block()}] = true
+							}
+						}
+						rs = append(rs, ranged{v: phi, cut: cut, alt: i})
 					}
-					rs = append(rs, ranged{v: phi, cut: cut, alt: i})
 				}
 			}
 			for _, rg := range rs {
